@@ -4,5 +4,5 @@ P=$(realpath "$1"); shift
 T=$(mktemp -d /tmp/cbv-try-XXXX)
 rsync -a --exclude target --exclude .git /repo/ $T/repo/
 (cd $T/repo && patch -p1 -s -i "$P") || { echo "patch failed"; rm -rf $T; exit 2; }
-for c in "$@"; do CBV_REPO=$T/repo CBV_EVIDENCE=$T/ev CBV_TAG=-try$(basename $T | tr -dc "A-Za-z0-9") /verif/cbv.py check $c 2>&1 | grep -E "tier=|rule=|ERROR|Error|Trace|line " | cut -c1-330 | head -${LINES_MAX:-8}; done
+for c in "$@"; do CBV_REPO=$T/repo CBV_EVIDENCE=$T/ev CBV_TAG=-try$(basename $T | tr -dc "A-Za-z0-9") $(dirname $(dirname $(realpath $0)))/cbv.py check $c 2>&1 | grep -E "tier=|rule=|ERROR|Error|Trace|line " | cut -c1-330 | head -${LINES_MAX:-8}; done
 rm -rf $T
